@@ -485,3 +485,26 @@ def c18(tier, seed):
                     "by_event": kinds, "meta": meta, "samples": [{k: e[k] for k in e if k not in ("A2", "Aorig", "rowmap", "s_pairs", "z_pairs")} for e in sample(lines, 2)],
                     "trusted_base": ["TLC", "observer reading of the clique trees (sorted clique vertices, separators)", "observer eigenvalues"]}
     return res
+
+
+# ---------------------------------------------------------------------------------------------------------------
+# beyond the listed properties: parts of the system that the specification covers for their own sake (./check X01 ...)
+def x01(tier, seed):
+    """VecMath.tla: the dense vector kernels"""
+    res = Result("X01", tier, seed, "model_checking")
+    wd = workdir("X01")
+    tr = os.path.join(wd, "vec.ndjson")
+    p = run_vh(["vecmath", "--seed", seed, "--tier", tier, "--out", tr])
+    v = validate_trace("VecMath.tla", "VecMath.cfg", tr, nshards=8, boundary=lambda e: True)
+    if not v["ok"]:
+        groups = {}
+        for rj in v["rejects"]:
+            e = rj["event"] or {}
+            groups.setdefault(str(e.get("op")), []).append(e)
+        for op, evs in groups.items():
+            res.violation("vec-" + op, {"kind": "events", "prop": "X01", "event": evs[0], "count": len(evs), "spec": "VecMath.tla", "cfg": "VecMath.cfg"},
+                          f"{len(evs)} calls of {op} rejected: {json.dumps(evs[0])[:300]}", key=op)
+    res.coverage = {"states": max(1, v["states"]), "transitions": max(1, v["transitions"]), "traces_validated_against_impl": v["events"],
+                    "rule": "every VectorMath kernel on all integer vectors of length <= 3 over {-2..2} (pairs over {-2,0,1}), restricted domains for recip/sqrt/rsqrt/norm/dist, "
+                            "sampled 3- and 4-vector kernels, non-finite inputs; results logged in quarter units and compared exactly"}
+    return res
